@@ -11,6 +11,8 @@ ENGINES = [
                        "replayed into the real code under a run-time tracer and the recorded traces are validated by TLC"},
     {"name": "itmrule", "path": "spec/ITMRule.tla spec/Rat.tla vh/itm_lattice.py", "serves_properties": ["C04"],
      "kind_free_text": "integration rules over exact rationals in TLA+, lattice enumerated by TLC, evaluated on the library's real step code"},
+    {"name": "storage", "path": "spec/Storage.tla spec/Scen_Storage.tla vh/storedrv.py", "serves_properties": ["C15"],
+     "kind_free_text": "TLA+ model of the time-series storage and npz off-loading; configuration product enumerated by TLC and run on the real code"},
     {"name": "lifecycle", "path": "spec/Lifecycle.tla spec/Trace_Lifecycle.tla spec/Scen_Lifecycle.tla vh/lifecycle.py vh/infeasible.py",
      "serves_properties": ["C17", "C14"],
      "kind_free_text": "TLA+ model of routine gating / success flags / exit code; TLC-enumerated operation sequences run on real Systems, "
@@ -47,6 +49,16 @@ CHECKS = {
              "validated by TLC; reset + power flow reproduces the first solution (Trace_Lifecycle).",
         note=TRUSTED + "'Equal up to discretisation error' is read as: same fired events/final status, strictly increasing axis with "
                        "every event time, final state within 10*tol relative. Fresh-process snapshot restore only in thorough tier."),
+    "C15": dict(
+        engine="storage+tdsloop", design_ref="DESIGN.md 4 (C15)",
+        technique="TLC model checking of Storage (off-load / append / resume) and TDSLoop thinning + TLC-enumerated configuration "
+                  "product run on the real code with bit-for-bit row identity + TLC trace validation",
+        text="Storage.tla is checked for 'the file holds exactly the kept rows, in order, once each' over every save_every / "
+             "limit_store / max_store / output / segmentation within the constants; the same product x output selections is run "
+             "on the real code with file output, the DAE.store wrapper's private copies are compared bit-for-bit with memory, "
+             "npz/lst, plot loader, csv export, device queries and a csv replay, and TLC validates every trace.",
+        note=TRUSTED + "Row identity = arrays copied at the moment of storing. Csv replay compared at 1e-10 (pandas' parser). "
+                       "streaming (DiME) is not exercised."),
     "C17": dict(
         engine="lifecycle+tdsloop", design_ref="DESIGN.md 4 (C17)",
         technique="TLC model checking of Lifecycle (gating / flags / exit code) and TDSLoop exits + TLC-enumerated routine sequences and "
